@@ -834,3 +834,151 @@ Proof.
   unfold c20_handles. rewrite Z.sub_0_r. rewrite <- (map_id (c20_range n)) at 2.
   apply map_ext. intros i. lia.
 Qed.
+
+(* ------------------------------------------------------------------ element-wise scans *)
+Definition c20_e_coord (x : c20_elem) : option Z := fst (fst x).
+Definition c20_e_pay (x : c20_elem) : option Z := snd (fst x).
+Definition c20_e_val (x : c20_elem) : option Z := snd x.
+
+Lemma nth_seq_id (l : list Z) : map (fun k => nth k l 0) (seq 0 (length l)) = l.
+Proof.
+  induction l as [|x l IH]; [reflexivity|]. cbn [length seq map nth]. f_equal.
+  rewrite <- seq_shift, map_map. exact IH.
+Qed.
+
+Lemma nthZ_range l : map (c20_nthZ l) (c20_range (c20_len l)) = l.
+Proof.
+  unfold c20_range, c20_len, iota. rewrite Nat2Z.id, map_map.
+  rewrite <- (nth_seq_id l) at 2. apply map_ext. intros k. unfold c20_nthZ. rewrite Nat2Z.id.
+  reflexivity.
+Qed.
+
+Lemma range_in d h : In h (c20_range d) -> 0 <= h < d.
+Proof.
+  unfold c20_range, iota. intros H. apply in_map_iff in H. destruct H as [k [<- Hk]].
+  apply in_seq in Hk. lia.
+Qed.
+
+Lemma iota_len_range {A} (l : list A) : iota (length l) = c20_range (c20_len l).
+Proof. unfold c20_range, c20_len. rewrite Nat2Z.id. reflexivity. Qed.
+
+Lemma range_length d : length (c20_range d) = Z.to_nat d.
+Proof. unfold c20_range, iota. rewrite map_length, seq_length. reflexivity. Qed.
+
+(* Uncompressed: the scan visits every position 0 .. shape-1; the payload handle of position i
+   is i; at the leaf rank the value read is the i-th stored payload *)
+Lemma scan_U e osf d : ef_fmt e = FU -> ef_shape e = d -> ef_npay e = d ->
+  (ef_leaf e = true -> c20_len (ef_vals e) = d) ->
+  map c20_e_coord (c20_scan e osf) = map Some (c20_range d)
+  /\ map c20_e_pay (c20_scan e osf) = map Some (c20_range d)
+  /\ (ef_leaf e = true -> map c20_e_val (c20_scan e osf) = map Some (ef_vals e)).
+Proof.
+  intros Hf Hs Hn Hv. unfold c20_scan, c20_c2h. rewrite Hf, Hs.
+  assert (Hh : c20_handles (if (0 <? 0) || (0 >=? d) then None else Some 0) d = c20_range d).
+  { destruct (0 >=? d) eqn:E; cbn [Z.ltb Z.compare orb].
+    - rewrite Z.geb_leb in E. apply Z.leb_le in E. unfold c20_handles, c20_range.
+      replace (Z.to_nat d) with 0%nat by lia. reflexivity.
+    - apply handles_from_0. }
+  rewrite Hh, !map_map. unfold c20_e_coord, c20_e_pay, c20_e_val. cbn [fst snd].
+  assert (Hp : forall h, In h (c20_range d) -> c20_h2p_base e h = Some h).
+  { intros h Hin. apply range_in in Hin. unfold c20_h2p_base. rewrite Hn.
+    replace (h >=? d) with false; [reflexivity|]. symmetry. rewrite Z.geb_leb. apply Z.leb_gt. lia. }
+  split; [reflexivity|]. split.
+  - apply map_ext_in. exact Hp.
+  - intros Hl. rewrite Hl. specialize (Hv Hl).
+    transitivity (map Some (map (c20_nthZ (ef_vals e)) (c20_range (c20_len (ef_vals e)))));
+      [|rewrite nthZ_range; reflexivity].
+    rewrite Hv, map_map.
+    apply map_ext_in. intros h Hin. rewrite (Hp h Hin). apply range_in in Hin.
+    unfold c20_p2v. rewrite Hn.
+    replace (h >=? d) with false; [reflexivity|]. symmetry. rewrite Z.geb_leb. apply Z.leb_gt. lia.
+Qed.
+
+Lemma c2h_C_zero cs hi : c20_asc 0 hi cs = true ->
+  c20_c2h_C cs 0 = match cs with [] => None | _ => Some 0 end.
+Proof.
+  intros H. rewrite (c2h_first_ge cs 0 hi 0 H). destruct cs as [|c cs]; [reflexivity|].
+  apply asc_cons in H. destruct H as [Hc _]. cbn [c20_first_ge].
+  replace (0 <=? c) with true; [reflexivity|]. symmetry. apply Z.leb_le. lia.
+Qed.
+
+(* CoordinateList: the scan visits every stored coordinate in order; the payload handle is the
+   position (wherever the fiber stores payload entries); at the leaf rank the value read is the
+   stored payload of that position *)
+Lemma scan_C e osf hi : ef_fmt e = FC -> c20_asc 0 hi (ef_coords e) = true ->
+  (ef_leaf e = true -> ef_npay e = c20_len (ef_coords e) /\ c20_len (ef_vals e) = c20_len (ef_coords e)) ->
+  map c20_e_coord (c20_scan e osf) = map Some (ef_coords e)
+  /\ (ef_leaf e || ef_nextup e = true ->
+      map c20_e_pay (c20_scan e osf) = map Some (c20_range (c20_len (ef_coords e))))
+  /\ (ef_leaf e = true -> map c20_e_val (c20_scan e osf) = map Some (ef_vals e)).
+Proof.
+  intros Hf Hasc Hleaf. unfold c20_scan, c20_c2h. rewrite Hf, (c2h_C_zero _ _ Hasc).
+  set (cs := ef_coords e) in *.
+  assert (Hh : c20_handles (match cs with [] => None | _ => Some 0 end) (c20_len cs)
+               = c20_range (c20_len cs)).
+  { destruct cs; [reflexivity|apply handles_from_0]. }
+  rewrite Hh, !map_map. unfold c20_e_coord, c20_e_pay, c20_e_val. cbn [fst snd].
+  split; [|split].
+  - transitivity (map Some (map (c20_nthZ cs) (c20_range (c20_len cs))));
+      [|rewrite nthZ_range; reflexivity].
+    rewrite map_map. apply map_ext_in. intros h Hin.
+    apply range_in in Hin.
+    replace (h >=? c20_len cs) with false; [reflexivity|].
+    symmetry. rewrite Z.geb_leb. apply Z.leb_gt. lia.
+  - intros Hl. apply map_ext. intros h.
+    destruct (ef_leaf e); [reflexivity|]. cbn [orb] in Hl. rewrite Hl. reflexivity.
+  - intros Hl. rewrite Hl. destruct (Hleaf Hl) as [Hn Hv]. cbn [negb andb].
+    transitivity (map Some (map (c20_nthZ (ef_vals e)) (c20_range (c20_len (ef_vals e)))));
+      [|rewrite nthZ_range; reflexivity].
+    rewrite Hv, map_map.
+    apply map_ext_in. intros h Hin. apply range_in in Hin. unfold c20_p2v. rewrite Hn.
+    replace (h >=? c20_len cs) with false; [reflexivity|].
+    symmetry. rewrite Z.geb_leb. apply Z.leb_gt. lia.
+Qed.
+
+Lemma enum_fst cs : forall ph, map fst (c20_enum ph cs) = cs.
+Proof. induction cs as [|c cs IH]; intros ph; [reflexivity|]. cbn [c20_enum map fst]. rewrite IH. reflexivity. Qed.
+
+Lemma enum_snd cs : forall ph,
+  map snd (c20_enum ph cs) = map (fun k => ph + k) (c20_range (c20_len cs)).
+Proof.
+  induction cs as [|c cs IH]; intros ph; [reflexivity|].
+  cbn [c20_enum map snd]. rewrite IH. unfold c20_range, c20_len, iota. rewrite !Nat2Z.id.
+  cbn [length seq map]. f_equal; [lia|]. rewrite <- seq_shift, !map_map.
+  apply map_ext. intros k. lia.
+Qed.
+
+(* Bitvector: the scan visits the set positions of the mask in order; payload handles
+   0, 1, 2, ...; at the leaf rank the value read is the stored payload of that handle *)
+Lemma scan_B e osf d cs : ef_fmt e = FB -> c20_asc 0 d cs = true ->
+  ef_coords e = c20_bits d cs -> ef_npay e = c20_len cs ->
+  (ef_leaf e = true -> c20_len (ef_vals e) = c20_len cs) ->
+  map c20_e_coord (c20_scan e osf) = map Some cs
+  /\ map c20_e_pay (c20_scan e osf) = map Some (c20_range (c20_len cs))
+  /\ (ef_leaf e = true -> map c20_e_val (c20_scan e osf) = map Some (ef_vals e)).
+Proof.
+  intros Hf Hasc Hc Hn Hv. unfold c20_scan. rewrite Hf, Hc, Hn, (bscan_mask d cs Hasc), !map_map.
+  unfold c20_e_coord, c20_e_pay, c20_e_val. cbn [fst snd].
+  assert (Hp : forall h, In h (c20_range (c20_len cs)) -> c20_h2p_base e h = Some h).
+  { intros h Hin. apply range_in in Hin. unfold c20_h2p_base. rewrite Hn.
+    replace (h >=? c20_len cs) with false; [reflexivity|].
+    symmetry. rewrite Z.geb_leb. apply Z.leb_gt. lia. }
+  assert (Hsnd : map snd (c20_enum 0 cs) = c20_range (c20_len cs)).
+  { rewrite enum_snd. rewrite <- (map_id (c20_range (c20_len cs))) at 2. apply map_ext. intros; lia. }
+  split; [|split].
+  - transitivity (map Some (map fst (c20_enum 0 cs))); [|rewrite enum_fst; reflexivity].
+    rewrite map_map. reflexivity.
+  - rewrite <- Hsnd, map_map.
+    apply map_ext_in. intros [c p] Hin. cbn [snd]. apply Hp. rewrite <- Hsnd.
+    apply in_map_iff. exists (c, p). auto.
+  - intros Hl. rewrite Hl. specialize (Hv Hl).
+    transitivity (map Some (map (c20_nthZ (ef_vals e)) (c20_range (c20_len (ef_vals e)))));
+      [|rewrite nthZ_range; reflexivity].
+    rewrite Hv, <- Hsnd, !map_map.
+    apply map_ext_in. intros [c p] Hin. cbn [snd].
+    assert (Hin' : In p (c20_range (c20_len cs))).
+    { rewrite <- Hsnd. apply in_map_iff. exists (c, p). auto. }
+    rewrite (Hp p Hin'). apply range_in in Hin'. unfold c20_p2v. rewrite Hn.
+    replace (p >=? c20_len cs) with false; [reflexivity|].
+    symmetry. rewrite Z.geb_leb. apply Z.leb_gt. lia.
+Qed.
